@@ -13,7 +13,7 @@ RULE = ("G-int arrangements with communication kernels (nccl*Kernel names) and c
         "time with >= 1 comm running, x100, compared after round(.,2); plus the merge_kernel_intervals contract. Non-trivial: "
         "overlap strictly between 0 and 100 on some rank. Distinct = hash of the files.")
 ASSUMPTIONS = ["every rank has communication time > 0 (else the ratio divides by zero: out of regime)", "type by the documented name rules"]
-PLAN = {"quick": {"shards": 16, "cases": 480, "timeout": 600}, "thorough": {"shards": 16, "cases": 10000, "timeout": 3000}}
+PLAN = {"quick": {"shards": 16, "cases": 960, "timeout": 600}, "thorough": {"shards": 16, "cases": 10000, "timeout": 3000}}
 FLOORS = {"quick": {"distinct_nontrivial": 120, "ranks_judged": 400, "merge_kernel_intervals.post": 800, "with_touching": 100, "with_zero_length": 80},
           "thorough": {"distinct_nontrivial": 2500, "ranks_judged": 8000, "merge_kernel_intervals.post": 16000, "with_touching": 2000, "with_zero_length": 1600}}
 
@@ -24,6 +24,11 @@ def setup(ctx: Any) -> None:
 
 def gen_case(rnd, tier: str, i: Any) -> Dict[str, Any]:
     return gen_int.gen_case(rnd, tier, need_comm=True)
+
+
+def fixed_cases(tier: str):
+    from hv import samples
+    return samples.sample_cases(tier)
 
 
 def run_case(case: Dict[str, Any], ctx: Any) -> core.CaseResult:
@@ -67,7 +72,9 @@ def run_case(case: Dict[str, Any], ctx: Any) -> core.CaseResult:
                 nontrivial = True
         res.nontrivial = nontrivial
         res.trivial_reason = "overlap is 0 or 100 on every rank"
-        res.key = core.digest(case["files"])
+        res.key = core.digest(case.get("sample") or case["files"])
+        if case.get("sample"):
+            res.counters["real_sample_traces"] += 1
         r0 = next(iter(exp))
         res.sample = {"ranks": len(exp), "rank": r0, "overlap_time/comm_time": list(exp[r0]),
                       "activities[ts,end,type,stream]": sorted((e.ts, e.end, iv.kernel_type(e.name), e.stream) for e in per_rank[r0])[:10]}
